@@ -26,7 +26,18 @@ def main(argv=None):
     os.environ.setdefault("PYTHONHASHSEED", "0")
     os.makedirs(os.path.join(VERIF, ".work"), exist_ok=True)
     os.environ.setdefault("OSV_WORK", os.path.join(VERIF, ".work"))
-    from . import table
+    try:
+        from . import impl, table  # noqa: F401  (imports the implementation from $VERIF_REPO)
+    except Exception as e:  # noqa: BLE001
+        # the package under test cannot even be imported: no property is shown to hold
+        import traceback
+        path = _write_replay(args.pid, {"kind": "no-failing-input-found", "property": args.pid, "seed": seed, "tier": args.tier,
+                                        "no_longer_checks": [{"broken": "correspondence", "suite": "import openskill",
+                                                              "diffs": ["%s: %s" % (type(e).__name__, e)],
+                                                              "driver_line": "", "impl": {"traceback": traceback.format_exc()[-2000:]}, "model": {}}],
+                                        "searched_evaluations": 0})
+        print("VIOLATION property=%s replay=%s no-failing-input-found" % (args.pid, path))
+        return 1
     if args.replay:
         return replay(args.pid, args.replay)
     return run_check(args.pid, args.tier, seed, table, no_proofs=args.no_proofs)
@@ -163,7 +174,7 @@ def run_check(pid, tier, seed, table, no_proofs=False):
                          "log": pr["log"][-2000:]})
         for b in corr_bad[:5]:
             what.append({"broken": "correspondence", "suite": b["suite"], "diffs": b["diffs"], "driver_line": b["line"],
-                         "impl": b["impl"], "model": b["model"]})
+                         "impl": b["impl"], "model": b["model"], "case": b.get("case")})
         path = _write_replay(pid, {"kind": "no-failing-input-found", "property": pid, "seed": seed, "tier": tier,
                                    "no_longer_checks": what, "searched_evaluations": searched})
         lines.append("VIOLATION property=%s replay=%s no-failing-input-found" % (pid, path))
@@ -232,6 +243,18 @@ def _run_monitor(pid, rng, budget, tier):
         return mon
 
 
+def _retuple(x):
+    """JSON turned the value tuples of a case into lists; the harness indexes them the same way, only the sentinel
+    comparisons need real tuples"""
+    if isinstance(x, list):
+        if x and isinstance(x[0], str) and x[0] in ("N", "B", "I", "F", "S", "O", "L", "T", "R"):
+            return tuple(_retuple(y) for y in x)
+        return [_retuple(y) for y in x]
+    if isinstance(x, dict):
+        return {k: _retuple(v) for k, v in x.items()}
+    return x
+
+
 def _strip(obs):
     return {k: v for k, v in obs.items() if not k.startswith("_") or k == "_msg"}
 
@@ -276,7 +299,17 @@ def replay(pid, path):
             continue
         print("correspondence case (suite %s): recorded diffs %s" % (w["suite"], w["diffs"]))
         print(" driver line: %s" % w["driver_line"][:1500])
-    return bad
+        if w.get("case") and w["case"].get("op"):
+            # run the recorded case again on the implementation in $VERIF_REPO and on the extracted model
+            c = _retuple(w["case"])
+            i = impl.run_case(c)
+            m = enc.run_model([c])[0]
+            d = compare.compare(c, i, m, compare.Stats())
+            print(" re-run now: implementation %s" % json.dumps(_strip(i), default=str)[:1200])
+            print("             model          %s" % json.dumps(m, default=str)[:1200])
+            print("             differences    %s" % (d or "none"))
+            bad += 1 if d else 0
+    return 1 if bad else 0
 
 
 if __name__ == "__main__":
